@@ -118,6 +118,30 @@ class BuildDirs:
         with self._lock:
             self._handle_dir_exists(norm_cased_dir)
 
+    def handle_norm_cased_dir_exists_unless_removed(self, norm_cased_dir):
+        """Handle a directory that exists in the real file system.
+
+        This is like ``handle_norm_cased_dir_exists``, except it first
+        checks whether the directory is removed in the virtual state of
+        the file system, as in ``is_removed_norm_case``. It's possible
+        that another thread virtually removed the directory after the
+        caller checked ``is_removed_norm_case``, in which case we don't
+        want to register the directory as existing.
+
+        Returns:
+            bool: Whether the directory exists in the virtual state of
+                the file system.
+        """
+        with self._lock:
+            if norm_cased_dir not in self._build_dir_counts:
+                if norm_cased_dir in self._removed_dirs:
+                    return False
+                elif (norm_cased_dir in self._maybe_removed_dirs and
+                        self._check_maybe_removed_dir(norm_cased_dir)):
+                    return False
+            self._handle_dir_exists(norm_cased_dir)
+            return True
+
     def started_building_file(self, filename, created_dirs):
         """Handle starting to build a file.
 
